@@ -643,4 +643,6 @@ func TestC10(t *testing.T) {
 	h.Run(c, "reentrant", c.N(6000, 60000), genReentrant, oracleReentrant)
 	c.Rule("basictypes: one container over each basic type name T of {bool,string,int,int32,int64,uint,uint32,uint64,byte,rune,float32,float64,interface}: make([]T,n,c), []T{..}, make(map[string]T), map[string]T{..}, make(map[T]string), make(struct{A T, B T2}), make([][]T,2), then 2-7 statements (element / key / field store, store at len, += x, + [..], row store, reads, len) with operands from int64 / float64 / string / bool / nil literals and elements of typed literals of every other basic type; after every statement the value fetched with env.Get has exactly Go's type of the declared spelling and the contents Go's conversion T(x) gives (reflect.Convert), a store Go has no conversion for fails and changes nothing; not executed (counted bt:open:*): float operands whose truncation does not fit the integer target or that exceed float32, strings of at most one character into byte / rune; non-trivial = at least one store that converted between two different Go types or was refused; distinct by source text")
 	h.Run(c, "basictypes", c.N(4000, 40000), genBasicTypes, oracleBasicTypes)
+	c.Rule("refstore: two variables hold a map[string]int64, a map[interface]interface, a []int64 or a []interface (type T); 1-3 holders: make(struct{M T, X interface}), []T (make or a literal over the variables), map[string]T (make or literal), an untyped list, an untyped map; 3-12 statements: store a variable or the content of a place into a place (assignment to field / element / key / member, store at index len, += x, + [x], through a script function), write / delete / read through a variable or through a place (h.M[k] = v, delete(h[0], k), fset(h[\"x\"], k, v), len(h.X)), rebind a variable to a fresh value, bind a variable to the content of a place; every statement mirrored on real Go values, all variables compared after every statement; non-trivial = at least one write / delete on a map or backing array that has two or more names at that moment, and >= 3 statements; distinct by source text")
+	h.Run(c, "refstore", c.N(3000, 30000), genRefStore, oracleRefStore)
 }
